@@ -35,6 +35,16 @@ Theorem C19_refuses_stored_mutators_of_checker : forall spec pubs, calls_ok spec
 Proof. exact calls_ok_sound. Qed.
 Print Assumptions C19_refuses_stored_mutators_of_checker.
 
+(* ... in whatever form the reference is stored: bound, unbound (list.append with the list as argument),
+   wrapped in functools.partial any number of times *)
+Theorem C19_refuses_every_stored_form_of_checker : forall spec pubs, calls_ok spec pubs = true ->
+  forall r T m, ref_target r = Some (T, m) -> In m (pubs T) -> mutates T m = true -> immutable_safe_ref spec r = false.
+Proof.
+  intros spec pubs Hok r T m Ht Hin Hmut. rewrite (safe_ref_by_target spec r T m Ht).
+  exact (calls_ok_sound spec pubs Hok T m Hin Hmut).
+Qed.
+Print Assumptions C19_refuses_every_stored_form_of_checker.
+
 (* underscore names (dunder mutators __setitem__, __iadd__, ...) are blocked for every table *)
 Theorem C19_private_blocked : forall tb spec T a, starts_underscore a = true ->
   immutable_is_safe_attribute tb spec T a = false.
@@ -106,5 +116,7 @@ Example C19_example :
   failing_rows snap_tables snap_spec snap_public = [] /\
   immutable_is_safe_callable snap_spec TDeque "appendleft" = false /\
   immutable_is_safe_callable snap_spec TList "index" = true /\
-  calls_ok snap_spec snap_public = true.
+  calls_ok snap_spec snap_public = true /\
+  immutable_safe_ref snap_spec (RPartial (RPartial (RUnbound TList "append"))) = false /\
+  immutable_safe_ref snap_spec (RPartial (RBound TList "copy")) = true.
 Proof. vm_compute. repeat split; reflexivity. Qed.
